@@ -221,6 +221,7 @@ Proof.
   split; [now apply ident_nb|]. split; [now apply (name_not_cpp_e eof)|].
   split; [apply dot_err; now apply ident_nodot|].
   split; [apply noparen_noann; now apply ident_noparen|].
+  split; [now apply ident_nolt|].
   intros -> E. rewrite (He eq_refl) in E. discriminate.
 Qed.
 
